@@ -484,6 +484,13 @@ func NewWithOrigin(o Opt, origin *Origin) *W {
 	case "text":
 		w.LogBuf = &bytes.Buffer{}
 		opts = append(opts, httpcache.WithLogger(slog.New(slog.NewTextHandler(&lockedWriter{w: w.LogBuf}, &slog.HandlerOptions{Level: slog.LevelDebug}))))
+	case "text-info", "text-error": // handlers enabled at a higher level only
+		w.LogBuf = &bytes.Buffer{}
+		lvl := slog.LevelInfo
+		if o.Logger == "text-error" {
+			lvl = slog.LevelError
+		}
+		opts = append(opts, httpcache.WithLogger(slog.New(slog.NewTextHandler(&lockedWriter{w: w.LogBuf}, &slog.HandlerOptions{Level: lvl}))))
 	case "json":
 		w.LogBuf = &bytes.Buffer{}
 		opts = append(opts, httpcache.WithLogger(slog.New(slog.NewJSONHandler(&lockedWriter{w: w.LogBuf}, &slog.HandlerOptions{Level: slog.LevelDebug, AddSource: true}))))
